@@ -130,7 +130,30 @@ def _worker(args):
         st["eak"].append(NEW)
         st["eattr"].append([])
         st["n2e"] = [es + ([NEW] if n in extra else []) for n, es in zip(st["nodes"], st["n2e"])]
-        out.append({"rid": f"s{base + k}", "what": f"shape {base + k} x 6 realisations", "st": st, "real": real,
+        # the same maximal simplices as a simplicial complex: one by one, in one bulk call, members and
+        # simplices in other orders - always the same complex
+        scs = []
+        for ri in range(4):
+            g = Gamma(*FAMS[ri % len(FAMS)])
+            S = xgi.SimplicialComplex()
+            ms = [list(m) for m in j["e2n"]]
+            if ri:
+                rng.shuffle(ms)
+                for m in ms:
+                    rng.shuffle(m)
+            try:
+                with warnings.catch_warnings():
+                    warnings.simplefilter("ignore")
+                    if ri % 2 == 0:
+                        for m in ms:
+                            S.add_simplex([g.node(n) for n in m])
+                    else:
+                        S.add_simplices_from([[g.node(n) for n in m] for m in ms])
+                scs.append(sorted(sorted(g.inv_node(n) for n in mem) for mem in S.edges.members()))
+            except Exception as ex:  # noqa: BLE001
+                errs.append(f"SimplicialComplex.{hg.classify(ex)}({g.name})")
+                scs.append([[-7]])
+        out.append({"rid": f"s{base + k}", "what": f"shape {base + k} x 6 realisations", "st": st, "real": real, "scs": scs,
                     "anom": sorted(set(errs))})
     return out
 
